@@ -120,6 +120,23 @@ def paths_uncached(rel, env, cached, counts):
         paths_uncached(rel.rhs, env, cached, counts)
 
 
+def passthrough_paths(rel, env, counts):
+    from lsst.daf.relation import BinaryOperationRelation, MarkerRelation, UnaryOperationRelation
+
+    if isinstance(rel, MarkerRelation):
+        if rel.payload is not None:
+            for i, p in enumerate(env.payloads):
+                if p is rel.payload:
+                    counts[i] = counts.get(i, 0) + 1
+            return
+        passthrough_paths(rel.target, env, counts)
+    elif isinstance(rel, UnaryOperationRelation):
+        passthrough_paths(rel.target, env, counts)
+    elif isinstance(rel, BinaryOperationRelation):
+        passthrough_paths(rel.lhs, env, counts)
+        passthrough_paths(rel.rhs, env, counts)
+
+
 def run_case(case, stats):
     from lsst.daf.relation import ColumnError, EngineError, MarkerRelation, Materialization, iteration
 
@@ -225,6 +242,9 @@ def run_case(case, stats):
             if got != expected:
                 raise Violation("rows-differ", f"{label}: expected {expected[:6]} got {got[:6]} (program {fmt(pnode, leaves)})", step=kind)
             after = starts()
+            # caches that *are* a leaf's payload object (materialized() hands materialized payloads through, and the
+            # Processor may prune a chain down to a leaf): every path through such a marker iterates that leaf
+            passthrough_paths(rel, env, bound)
             for i in before:
                 grew = after[i] - before[i]
                 if grew > bound.get(i, 0):
